@@ -322,6 +322,7 @@ func runTxCase(in input) (*caseOut, error) {
 			ko.Fired, ko.Err, ko.Text = ke.fdb.Fired, kfailed, kres
 			if fc := ke.fdb.FailedCall(); fc != nil {
 				ko.Callee = fc.Callee
+				ko.Below = sitesBelow(fc.Sites)
 			}
 			switch {
 			case !ko.Fired:
@@ -457,6 +458,7 @@ func runFreshTxCase(in input) (*caseOut, error) {
 			ko.Fired, ko.Err, ko.Text = ke.fdb.Fired, kfailed, kres
 			if fc := ke.fdb.FailedCall(); fc != nil {
 				ko.Callee = fc.Callee
+				ko.Below = sitesBelow(fc.Sites)
 			}
 			switch {
 			case !ko.Fired:
